@@ -96,7 +96,7 @@ VlMacros == [s \in {"all_vl", "exists_vl", "exone_vl", "filter_vl", "map_vl"} |-
 Arity(s) ==
   CASE s \in {"and", "or"} \cup DOMAIN BinSyms -> 2
     [] s = "cond" -> 3
-    [] s \in {"not", "neg", "t", "h1", "m0", "size", "list1", "int", "has_a"} -> 1
+    [] s \in {"not", "neg", "t", "h1", "m0", "size", "list1", "int", "has_a", "sel_a"} -> 1
     [] s \in DOMAIN VlMacros -> 1
     [] s \in {"h2", "m1", "list2", "map1"} -> 2
     [] s \in {"h3", "m2"} -> 3
@@ -118,6 +118,7 @@ Build(s, pos, k) ==
     [] s \in {"list1", "list2"} -> ListE(k)
     [] s = "map1" -> MapE(<< << k[1], k[2] >> >>)
     [] s = "has_a" -> Sel(k[1], "a", << 97 >>, TRUE)
+    [] s = "sel_a" -> Sel(k[1], "a", << 97 >>, FALSE)
     [] s = "all" -> Macro("all", k[1], MacroVar, << k[2] >>)
     [] s = "exists" -> Macro("exists", k[1], MacroVar, << k[2] >>)
     [] s = "exists_one" -> Macro("exists_one", k[1], MacroVar, << k[2] >>)
@@ -176,6 +177,7 @@ Src(s, pos, k) ==
     [] s \in {"list1", "list2"} -> "[" \o Join(k, ", ") \o "]"
     [] s = "map1" -> "{" \o k[1] \o ": " \o k[2] \o "}"
     [] s = "has_a" -> "has(" \o k[1] \o ".a)"
+    [] s = "sel_a" -> k[1] \o ".a"
     [] s \in {"all", "exists", "exists_one", "filter"} -> k[1] \o "." \o s \o "(x, " \o k[2] \o ")"
     [] s = "mapm" -> k[1] \o ".map(x, " \o k[2] \o ")"
     [] s \in DOMAIN VlMacros -> "vl." \o VlMacros[s] \o "(x, " \o k[1] \o ")"
